@@ -37,7 +37,8 @@ Profile GetProfile(const std::string& name, bool thorough) {
     p.pm_cmd_fail = 40; p.pm_editor = 0; p.w_manifest_edit = 1; p.pm_tty = 100; p.w_inflate_log = 0;
     p.gen.features &= ~F_REGEN;
     p.subset_then_touch = true;
-    p.backdating_cmds = true;
+    // (no back-dating commands here: an output re-created with an old time stamp is, for any tool that
+    // goes by time stamps, not "rewritten" - the minimality model would have to know the stamps)
   } else if (name == "C01" || name == "C02" || name == "C04") {
     p.pm_cmd_fail = 40; p.pm_interrupt = 60; p.pm_crash = 40; p.pm_editor = 80;
     p.w_manifest_edit = 1; p.pm_tty = 150;
